@@ -207,6 +207,22 @@ class Conc(KVStream):
             return {"what": "harness did not record the concurrent history", "signature": "conc-harness"}
         return None
 
+    def verdict_predicate(self, op, impl, model, cov):
+        # the `conc` line carries the answers the real code gave to concurrent requests + what it left behind; the driver
+        # searches an order of those requests under which the SEQUENTIAL register specification gives every request
+        # the answer it got.  When the sequential stream of this very run agreed with the code on every request, the
+        # specification is the code's sequential behaviour, so "no such order" is the property (linearizable versioned
+        # register) failing on that recorded schedule.
+        if op.startswith("conc\t") and model == "not-linearizable" and impl.split("!VIOL:", 1)[0] == "lin":
+            seq = cov.get("kv2-seq")
+            if seq and seq["mismatches"] == 0 and seq["evaluations"] > 1000:
+                f = op.split("\t")
+                return {"what": "concurrent history not linearizable: requests %s got answers %s (schedule: %s); no sequential "
+                                "order of them under the versioned-register specification gives these answers and the state "
+                                "observed afterwards" % (f[1], f[3], f[6] if len(f) > 6 else "-"),
+                        "signature": "not-linearizable"}
+        return None
+
 
 class ConcDirected(Conc):
     name = "kv2-conc-directed"
